@@ -9,7 +9,7 @@ import (
 func init() {
 	register(&Property{
 		ID:        "C01",
-		Technique: "abstract interpretation of push/pop counts over the generated closures' statement structure + child-context tracing on the typed AST; symbolic normal forms of the Stack primitives; scope-recording agreement checks",
+		Technique: "abstract interpretation of push/pop counts over the generated closures' statement structure + child-context tracing on the typed AST; symbolic normal forms of the Stack primitives; scope-recording agreement checks, producer-stack capture check of lazy list producers, scope check of let values",
 		Explanation: "Decides the structural conditions on which name resolution and slot addressing of the compiled closures rest " +
 			"(every generated child is called with exactly as many pending pushes as its compile-time context knows; frames are exactly the pushed arguments; " +
 			"the closure context is built in the order it was compiled against; the parser records the outer names the generator looks up; the Stack primitives have the frame-layout normal form). " +
@@ -34,7 +34,7 @@ func init() {
 	})
 	register(&Property{
 		ID:        "C02",
-		Technique: "guard dominance on per-function CFGs (purity and commutativity flags dominate every Generate-time execution), conjunct-closure check of purity propagation, who-may-call check of the recovering optimizer entry, flag/implementation witness tables, sibling agreement of generator and optimizer dispatch, subtree promotions checked against the child roles read from the generated code",
+		Technique: "guard dominance on per-function CFGs (purity and commutativity flags dominate every Generate-time execution), conjunct-closure check of purity propagation, who-may-call check of the recovering optimizer entry, flag/implementation witness tables, sibling agreement of generator and optimizer dispatch, subtree promotions checked against the child roles read from the generated code, finite enumeration of the arity tests of optimizer and generated call over all orderings of (Args, count), reaches-a-result dataflow of child purities, no-failure-under-constant-test and flag-store checks",
 		Explanation: "Decides that the optimizer executes operator/function implementations at Generate time only under the IsPure flag of the very descriptor it executes, regroups only under IsCommutative/same-operator, " +
 			"that the generator's purity result conjoins the purity of every sub expression and statically bound callee, that declared flags have no asymmetry/impurity witness in the implementation, that optimizer code is reachable only through the recovering wrapper, " +
 			"that optimizer and generator consult the same handlers per AST node kind, and that the optimizer replaces a node by one of its children only under the condition under which the generated code returns that child's value. Not decided: equality of folded and run-time values, execution counts, purity of host functions and methods.",
@@ -61,7 +61,7 @@ func init() {
 	})
 	register(&Property{
 		ID:        "C03",
-		Technique: "symbolic normal forms of the level arithmetic (op+1, opPos+1), loop/accumulator dataflow of the precedence loop, dominator and must-pass-through checks of token tests on per-function CFGs",
+		Technique: "symbolic normal forms of the level arithmetic (op+1, opPos+1), loop/accumulator dataflow of the precedence loop, dominator and must-pass-through checks of token tests on per-function CFGs, pairing check of depth counters (increment/decrement on every exit path)",
 		Explanation: "Decides the structural conditions of the precedence climbing scheme as implemented: one recursion level per operator in table order, left associative accumulation loop whose continuation test is this level's operator, " +
 			"prefix operators that are also binary parse their operand at opPos+1 and every such operator gets its position, a successful Parse has seen EOF behind the top level expression, every consumed token is identified by a Peek test or type checked (keywords/operators also by spelling) before a successful return, implicit '*' only in comfort mode. " +
 			"Not decided: the grouping outcome for arbitrary tables and inputs, maximal munch of the operator detector, the postfix binding order.",
@@ -80,7 +80,7 @@ func init() {
 	})
 	register(&Property{
 		ID:        "C04",
-		Technique: "structured must-advance analysis of every scanner loop with sentinel agreement, call-graph cycle check of the recursive descent (every cycle consumes a token), who-may-call check of the recovering optimizer entry, reachability of explicit panics, return-discipline check on CFG guards",
+		Technique: "structured must-advance analysis of every scanner loop with sentinel agreement, call-graph cycle check of the recursive descent (every cycle consumes a token), who-may-call check of the recovering optimizer entry, reachability of explicit panics, return-discipline check on CFG guards, wrapper-per-recursion-level check of the recursive descent (call-graph cycles incl. function values), symbolic start-implies-continue check of the matchers with table lookups, liveness of decode widths, constant bound of the value stack against the Go stack limit",
 		Explanation: "Decides structural totality conditions of tokenizer and parser: every rune level loop advances the input on every path back to its head and has an exit that is taken on the end-of-input sentinel peek really returns; " +
 			"the recursive descent has no cycle of calls that consumes no token (except the well founded op→op+1 edge); folding panics are contained (R02.5); no explicit panic is reachable from Parse inside package parser2; " +
 			"every return of a parser/generator function hands back a result or a non-nil error, never neither. Not decided: index/bounds panics, running time, Go stack depth for deeply nested input.",
@@ -108,7 +108,7 @@ func init() {
 	})
 	register(&Property{
 		ID:        "C05",
-		Technique: "goroutine-boundary containment check (recover semantics modelled: recover must be called directly by the deferred function; role table of the iterator dependency verified against its source), flow-sensitive use-before-error-check on CFG guards, guard dominance for integer faults and range-checked arguments, call-graph reachability of explicit panics, frozen table of fresh-stack sites",
+		Technique: "goroutine-boundary containment check (recover semantics modelled: recover must be called directly by the deferred function; role table of the iterator dependency verified against its source), flow-sensitive use-before-error-check on CFG guards, guard dominance for integer faults and range-checked arguments, call-graph reachability of explicit panics, frozen table of fresh-stack sites, result-binding check of deferred recover helpers",
 		Explanation: "Decides structural fault-containment conditions: every goroutine that can run closures of the evaluated program starts with a deferred function that itself calls recover(), or every function handed to a goroutine-crossing combinator of the iterator dependency is a recovering adapter (and a recovered downstream panic is re-raised on the calling goroutine); " +
 			"no value returned together with an error is asserted/called/dereferenced before the error was compared with nil; integer division, modulo and signed shifts are guarded; arguments of panicking callees (rand.Intn, make, iterator.CombineN) are range checked; explicit panics reachable from evaluation are re-raises, the arg-package protocol or the recursion guard; " +
 			"the recursion guard exists and the try expression is evaluated under a recover; fresh value stacks (which restart the recursion guard) occur only at the listed sites. Not decided: absence of every Go run-time panic (index out of range, nil map), Go stack exhaustion, panics while a lazy result is consumed after Eval returned.",
@@ -129,7 +129,7 @@ func init() {
 	})
 	register(&Property{
 		ID:        "C06",
-		Technique: "ownership check of value stacks at goroutine-crossing combinators (role table of the iterator dependency), lexical construction-site check of iterator pipelines, effect check of generated closures (no store to compile-time scope), lock-set check of the List cache",
+		Technique: "ownership check of value stacks at goroutine-crossing combinators (role table of the iterator dependency), lexical construction-site check of iterator pipelines, effect check of generated closures (no store to compile-time scope), lock-set check of the List cache, producer-stack capture check, receiver-mutating method calls on compile-time objects",
 		Explanation: "Decides necessary conditions of schedule independence: no function that a goroutine-crossing combinator (MapAuto, FilterAuto, Merge) runs concurrently with its consumer or with its sibling shares a value stack with them (every such stack is created inside the producer / per worker); " +
 			"every iterator pipeline with callbacks is built inside the list's producer function, i.e. per iteration; generated closures store nothing into compile-time scope; every access to the materialisation cache of List holds the list's mutex and the producer/size fields are written at construction only. " +
 			"Not decided: equality of parallel and sequential results, order restoration inside the dependency, race freedom in the sense of the race detector.",
@@ -150,7 +150,7 @@ func init() {
 	})
 	register(&Property{
 		ID:        "C07",
-		Technique: "flow-sensitive error-drop analysis on per-function CFGs (every error definition reaches a test/return/hand-over before overwrite or exit), dead-store check for value receivers, arity-vs-stack-slot check of every method/function declaration (interprocedural constant binding, two levels), sibling agreement of map storages (R13.1), aliasing discipline of list backing slices (R09.1)",
+		Technique: "flow-sensitive error-drop analysis on per-function CFGs (every error definition reaches a test/return/hand-over before overwrite or exit), dead-store check for value receivers, arity-vs-stack-slot check of every method/function declaration (interprocedural constant binding, two levels), sibling agreement of map storages (R13.1), aliasing discipline of list backing slices (R09.1), path-sensitive postcondition of the materialising method (success implies presence, no store after failure)",
 		Explanation: "Decides, for the clause 'misuse yields an error' and for the mechanisms the built-ins share: no error produced inside a built-in is dropped on any path; a method that records an error in its receiver can be observed by its caller; " +
 			"no method or function reads a stack slot beyond its declared arity; the map storages agree on their key domain and list backing slices are not aliased by their providers (R13.1, R09.1); string cutting keeps one unit (runes or bytes) per quantity; text to number conversions read the same number syntax as the language's own number parser. Not decided: the mathematical result of each of the ~120 built-ins.",
 		Rules: []*Rule{
@@ -173,7 +173,7 @@ func init() {
 	})
 	register(&Property{
 		ID:        "C08",
-		Technique: "construction-site purity check of lazy stages (no consuming method, no closure call outside the producer; consuming methods derived from the source), early-exit check of short-circuit consumers on CFG guards, stop-propagation check of every producer literal (repository and iterator dependency), per-iteration state check of stage producers, read-ahead discipline of producer loops (element independent exit before error forwarding, no latched element errors)",
+		Technique: "construction-site purity check of lazy stages (no consuming method, no closure call outside the producer; consuming methods derived from the source), early-exit check of short-circuit consumers on CFG guards, stop-propagation check of every producer literal (repository and iterator dependency), per-iteration state check of stage producers, read-ahead discipline of producer loops (element independent exit before error forwarding, no latched element errors), who-may-call check of the eager parallel combinators",
 		Explanation: "Decides the structural side of laziness: building a lazy stage iterates nothing and calls no closure; first/single/present/indexWhere/~ leave their loop over the producer as soon as the result is decided; every producer (in the repository and in the iterator dependency) returns when the consumer answers false, or ignores the answer only for its last element; " +
 			"stage producers keep all state they modify per iteration; a loop over a producer that can drop the element it has just pulled on an element independent exit tests that exit before it forwards the element's error, and no element error is stored beyond the loop while the loop goes on. Not decided: demand counts, the read-ahead width, errors behind the decisive element in other shapes or in parallel mode.",
 		Rules: []*Rule{
@@ -189,7 +189,7 @@ func init() {
 	})
 	register(&Property{
 		ID:        "C09",
-		Technique: "ownership/aliasing analysis of backing slices (origin classification of every slice that is written in place or becomes the storage of a list), guard check of the capacity trim of append, receiver-store check of all MapStorage implementations, call-site restriction of the one in-place map update (ListMap.Append) to maps created by the calling function",
+		Technique: "ownership/aliasing analysis of backing slices (origin classification of every slice that is written in place or becomes the storage of a list), guard check of the capacity trim of append, receiver-store check of all MapStorage implementations, call-site restriction of the one in-place map update (ListMap.Append) to maps created by the calling function, determinism check of lazy producers (no range over a Go map), store classification of List fields (cache fill and trim only)",
 		Explanation: "Decides the mechanism of persistence, not content equality: every in-place write to a []Value (element store, swap, delete-by-append, sort, copy) targets a slice the function allocated itself; a slice that becomes the storage of a list is not written afterwards and is not a buffer the iterator dependency reuses; " +
 			"the in-place append trims the parent's capacity whenever spare capacity was left; ToSlice returns a capacity-capped view and CopyToSlice a fresh copy; no map storage method stores into its receiver; ListMap.Append and Go-map stores only touch maps the function created. Not decided: behaviour of host-provided storages, observable equality of old values.",
 		Rules: []*Rule{
@@ -202,7 +202,7 @@ func init() {
 	})
 	register(&Property{
 		ID:        "C10",
-		Technique: "effect analysis: every store in code reachable from evaluation entry points (call-graph closure over static calls, method values and interface dispatch) is classified by the lifetime of its target; generated closures and stage producers are checked for stores into compile-time / per-list scope; aliasing rules R09.1/R09.2; per-closure allocation of the closure context (R01.2)",
+		Technique: "effect analysis: every store in code reachable from evaluation entry points (call-graph closure over static calls, method values and interface dispatch) is classified by the lifetime of its target; generated closures and stage producers are checked for stores into compile-time / per-list scope; aliasing rules R09.1/R09.2; per-closure allocation of the closure context (R01.2), pairing check of depth counters, producer-stack capture check, postcondition of the materialising method",
 		Explanation: "Decides 'no evaluation-time store outlives the evaluation': code reachable from evaluation writes no package level variable, no field of the generator/optimizer/parser and no language value reached through a pointer (other than the mutex protected List cache); generated closures store nothing into generator scope; stage producers keep their state per iteration; " +
 			"list/map values are never written in place (R09); the closure context is allocated per closure creation (R01.2); every Eval creates its own stack and no generator-owned stack is used by evaluation code. Not decided: host functions with hidden state, random.",
 		Rules: []*Rule{
@@ -223,7 +223,7 @@ func init() {
 	})
 	register(&Property{
 		ID:        "C11",
-		Technique: "the effect and ownership rules of C06/C10 read as necessary conditions of data-race freedom: lifetime classification of every evaluation-time store, mutex discipline of the List cache (lock set, append inside the trimming critical section), goroutine confinement of value stacks, per-iteration pipelines, write-once check of the package level variables evaluation code reads",
+		Technique: "the effect and ownership rules of C06/C10 read as necessary conditions of data-race freedom: lifetime classification of every evaluation-time store, mutex discipline of the List cache (lock set, append inside the trimming critical section), goroutine confinement of value stacks, per-iteration pipelines, write-once check of the package level variables evaluation code reads, producer-stack capture check, postcondition of the materialising method",
 		Explanation: "Decides the necessary condition 'every evaluation-time store targets memory allocated during that evaluation or is lock protected': generated closures are read-only after Generate (no store into compile-time scope), evaluation code writes no package level variable / generator field / shared language value, the List cache is accessed under its mutex only and an append into spare capacity happens in the critical section that trims the parent, " +
 			"no generator-owned stack is used by evaluation code, every Eval has its own stack, iterator pipelines are built per iteration, and set-up code (value.New, registration helpers) writes the package level variables that evaluation code reads only once per process (declaration, init, package level sync.Once). Not decided: actual race freedom (no sound may-alias analysis in reach), equality of concurrent and isolated outcomes.",
 		Assumptions: []string{"host functions and host values registered by the application are themselves safe for concurrent use"},
@@ -276,7 +276,7 @@ func init() {
 	})
 	register(&Property{
 		ID:        "C14",
-		Technique: "table and wiring checks: mirror-image comparison of the cells of the = and < matrices, parameter-position dataflow of the derived operators against a reference table taken from the property text, registration/assertion type agreement, identity of the relation object used by all consumers, size-test dominance in container equality, use-before-error-check (R05.2)",
+		Technique: "table and wiring checks: mirror-image comparison of the cells of the = and < matrices, parameter-position dataflow of the derived operators against a reference table taken from the property text, registration/assertion type agreement, identity of the relation object used by all consumers, size-test dominance in container equality, use-before-error-check (R05.2), guard check of float-to-integer conversions in comparison cells (two-sided bound)",
 		Explanation: "Decides the table and wiring conditions the algebraic laws need: the = and < matrices have a cell for both operand orders of every mixed pair and mirrored cells convert each operand type the same way; != > <= >= are computed from the objects registered for = and < with the operand order and evaluation order of the reference table (ordering first, so incomparable operands fail); " +
 			"every implementation asserts exactly the Go types it is registered for; switch, ~, groupByEqual, min/max/order and the element comparison of containers all call the object registered as the operator; container equality compares sizes on every path to 'equal'; no Go == on two language values; results are not used before their error was checked. Not decided: the laws on values themselves (transitivity etc. follow from Go's float/int/string semantics), NaN.",
 		Rules: []*Rule{
@@ -294,7 +294,7 @@ func init() {
 	})
 	register(&Property{
 		ID:        "C15",
-		Technique: "constant propagation of the comment-skipping flag through the scanner's call sites, dominance and ordering checks inside peek, case-constant vs written-constant agreement of the escape and alias tables against reference tables taken from the property text, implicit-multiplication guard (R03.6)",
+		Technique: "constant propagation of the comment-skipping flag through the scanner's call sites, dominance and ordering checks inside peek, case-constant vs written-constant agreement of the escape and alias tables against reference tables taken from the property text, implicit-multiplication guard (R03.6), parameter-identity check of the text handed to the tokenizer, liveness of decode widths, table-lookup mechanism of the superscripts evaluated per rune",
 		Explanation: "Decides the structural side of layout independence: comment skipping is off at every call made while the characters of one token are read and on at the two token boundaries; a cached '/' is re-examined, adjacent comments are skipped in a loop, the re-examination position lies behind the skipped comments, line breaks in block comments and between tokens are counted; " +
 			"the escape table of string literals and the typographic/superscript alias tables equal the documented ones; quoted identifiers are emitted without keyword/text-operator lookup; implicit '*' bookkeeping only in comfort mode. Not decided: AST invariance under re-spacing as such, comfort-mode juxtaposition semantics, line attribution in general.",
 		Rules: []*Rule{
@@ -313,7 +313,7 @@ func init() {
 	})
 	register(&Property{
 		ID:        "C16",
-		Technique: "agreement checks between the parser's scope functions and the generator: dependence of the recorded outer name on Identifier.ThisName (R01.4), guard dominance in AddMap, wrapping order and name identity in GenerateWithMap, single-use check of closure scopes, dedup-key agreement in AddArgs",
+		Technique: "agreement checks between the parser's scope functions and the generator: dependence of the recorded outer name on Identifier.ThisName (R01.4), guard dominance in AddMap, wrapping order and name identity in GenerateWithMap, single-use check of closure scopes, dedup-key agreement in AddArgs, scope-identity check of the parse call that yields a let's value",
 		Explanation: "Decides the structural conditions of implicit-attribute mode: the name a closure captures for an attribute is the map's name (R01.4); AddMap lets exactly the constants and static functions of the wrapped scope win and turns every other name into an attribute of the given map; GenerateWithMap uses one name as the single stack argument and as attribute owner, wraps the generator scope with AddMap and adds the arguments on top; " +
 			"a scope that contains closure parameters is used for that closure body only; the outer-name list is deduplicated by the value that is appended; closure literals carry the variables their scope was built from (R01.3). Not decided: behavioural equivalence with the explicitly rewritten program.",
 		Rules: []*Rule{
@@ -347,7 +347,7 @@ func init() {
 	})
 	register(&Property{
 		ID:        "C18",
-		Technique: "name-position check (constant, constant-fed parameter or validator-dominated) of every Open/Attr call, who-writes check of the raw sinks, abstract evaluation of the XML escaper per code point, structured depth counting of Open/Close with role summaries per function, recover-semantics check of ToHtml",
+		Technique: "name-position check (constant, constant-fed parameter or validator-dominated) of every Open/Attr call, who-writes check of the raw sinks, abstract evaluation of the XML escaper per code point, structured depth counting of Open/Close with role summaries per function, recover-semantics check of ToHtml, pairing check of depth counters, per-code-point evaluation follows overwritten runes and predicate calls (code-point sets)",
 		Explanation: "Decides the structural side of injection freedom and well-formedness: every element and attribute name is a constant, a parameter fed with constants only, or dominated by the XML name validator; a map is exported in attribute form only if all its keys passed that validator; raw sinks receive constants, names or the host's custom renderer output; " +
 			"attribute values and character data go through the escaper, whose every reachable sink for < > & ' \" is the entity; on every non-failing path each function changes the element depth by exactly its role (+1 open, -1 close, 0 otherwise); ToHtml recovers panics into its error. Not decided: illegal XML characters (excluded by the property), attribute-value normalisation of CR/LF/TAB by XML parsers, javascript: URLs, CSS semantics.",
 		Rules: []*Rule{
@@ -367,7 +367,7 @@ func init() {
 	})
 	register(&Property{
 		ID:        "C19",
-		Technique: "flag/implementation witness tables over the example configurations, symbolic index check of the operator-table insertion, operand-conservation check of the optimizer's regrouping, abstract evaluation of the tokenizer's implicit-multiplication conditions over all (previous token, blank) combinations, plus the generic-body rules of C01-C03 (frame slots, guarded folding, purity propagation, precedence climbing)",
+		Technique: "flag/implementation witness tables over the example configurations, symbolic index check of the operator-table insertion, operand-conservation check of the optimizer's regrouping, abstract evaluation of the tokenizer's implicit-multiplication conditions over all (previous token, blank) combinations, plus the generic-body rules of C01-C03 (frame slots, guarded folding, purity propagation, precedence climbing), pairing check of depth counters",
 		Explanation: "Decides the code-shape clauses the bounded-exhaustive statement rests on, for every value type at once because the generic bodies are analysed uninstantiated: the example configurations declare no commutative/pure flag that the implementation contradicts; AddOpBehind inserts directly behind the reference operator (registration order is priority); the optimizer's regrouping keeps the variable operand and folds only the operand proven constant; the tokenizer inserts the implicit '*' exactly for the documented (previous token, blank) combinations; " +
 			"the generic generator, optimizer and parser rules of C01, C02 and C03 hold. Not decided: the computed values themselves - no expression is evaluated; equality with the operators' own definitions for every expression is a run-time quantity.",
 		Rules: []*Rule{
